@@ -181,7 +181,79 @@ def r06_6(prog: Program, rep):
         raise AnalysisError(f"expected >= 4 effects in the files backend's conditional operations, found {n}")
 
 
+def r06_8(prog: Program, rep):
+    """Atomic means atomic on every transport and for every command.
+    (a) SIBLINGS-AGREE: every wire client's send_pack that knows the atomic capability refuses (raises) when the caller asked
+        for atomic and the server did not advertise it - it never sends the push anyway;
+    (b) the validation loop of an atomic push looks at EVERY command: no iteration ends before the comparison with the
+        expected old value;
+    (c) refs are changed only through the conditional operations in push-serving functions: no `del refs[..]`, no
+        `refs[..] = ..`, no unconditional call."""
+    cm = prog.module("dulwich/client.py")
+    n = 0
+    for q, f in sorted(cm.funcs.items()):
+        if f.name != "send_pack" or "#" in q:
+            continue
+        if not any(isinstance(x, ast.Name) and x.id == "CAPABILITY_ATOMIC" for x in ast.walk(f.node)):
+            continue
+        n += 1
+        g = cfg_of(prog, f)
+        at = [i for i, nd in g.nodes.items() if nd.kind == "test" and isinstance(nd.ast, ast.Name) and nd.ast.id == "atomic"]
+        cap = {}
+        for i, nd in g.nodes.items():
+            if nd.kind == "test" and isinstance(nd.ast, ast.Compare) and len(nd.ast.ops) == 1 and isinstance(nd.ast.left, ast.Name) and nd.ast.left.id == "CAPABILITY_ATOMIC" \
+                    and "server" in norm(nd.ast.comparators[0]):
+                cap[i] = "true" if isinstance(nd.ast.ops[0], ast.NotIn) else "false"        # the "server lacks it" edge
+        raises = [i for i, nd in g.nodes.items() if nd.kind == "stmt" and isinstance(nd.ast, ast.Raise)]
+        ok = False
+        for i, lab in cap.items():
+            lacking = [b for b, l in g.succ[i] if l == lab]
+            # on the lacking side (reached under `atomic`) the only way on is a raise
+            r_ = reach(g, lacking, include_srcs=True, avoid=set(raises))
+            ok = ok or (g.exit_normal not in r_ and bool(at))
+        rep.ob("R06.8", cm.rel, q, "atomic requested but not advertised by the server: the push is refused", ok,
+               "the request goes out although the server cannot apply it atomically: refs are updated one by one and a failure in the middle "
+               "leaves the push half applied, while the caller asked for all-or-nothing", f.node.lineno)
+    if n < 2:
+        raise AnalysisError(f"expected >= 2 wire send_pack implementations handling CAPABILITY_ATOMIC, found {n}")
+    for f, sites, kind, map_name in push_serving_functions(prog):
+        g = cfg_of(prog, f)
+        # (b) validation loops of the atomic branch: for-loops under `if atomic` that contain no CAS call
+        for t in [x for x in ast.walk(f.node) if isinstance(x, ast.If) and isinstance(x.test, ast.Name) and x.test.id == "atomic"]:
+            for lp in [x for s_ in t.body for x in ast.walk(s_) if isinstance(x, ast.For)]:
+                has_cas = any(isinstance(c, ast.Call) and isinstance(c.func, ast.Attribute) and c.func.attr in ("set_if_equals", "remove_if_equals", "add_if_new")
+                              for c in ast.walk(lp))
+                cmps = {i for i, nd in g.nodes.items() if nd.kind == "test" and isinstance(nd.ast, ast.Compare) and any(id(nd.ast) == id(x) for x in ast.walk(lp))
+                        and any(isinstance(y, ast.Name) and "old" in y.id for y in ast.walk(nd.ast))}
+                if has_cas or not cmps:
+                    continue
+                heads = [i for i, nd in g.nodes.items() if nd.kind == "for_iter" and nd.ast is lp]
+                first = g.nodes_of(lp.body[0])
+                # an iteration may end early once a failure status was recorded for this command (a store to the status map / flag)
+                fails = {i for i, nd in g.nodes.items() if nd.kind == "stmt" and isinstance(nd.ast, ast.Assign) and any(id(nd.ast) == id(x) for x in ast.walk(lp))
+                         and (isinstance(nd.ast.targets[0], ast.Subscript) or (isinstance(nd.ast.value, ast.Constant) and nd.ast.value.value is True)
+                              or "status" in norm(nd.ast.targets[0]))}
+                bad = must_pass(g, heads, cmps | fails, start=first)
+                rep.ob("R06.8", f.module.rel, f.qual, f"the atomic validation loop at line {lp.lineno} compares every command with its expected old value", not bad,
+                       "an iteration of the validation loop can end (continue) before the comparison: that command is not validated, the push is applied "
+                       "and fails for exactly that ref afterwards - partially applied", lp.lineno)
+        # (c) unconditional ref mutations
+        bad = []
+        for x in ast.walk(f.node):
+            tg = None
+            if isinstance(x, ast.Delete):
+                tg = x.targets[0]
+            elif isinstance(x, ast.Assign):
+                tg = x.targets[0]
+            if isinstance(tg, ast.Subscript) and (dotted(tg.value) or "").endswith("refs"):
+                bad.append(x)
+        rep.ob("R06.8", f.module.rel, f.qual, "refs are changed only through the conditional operations", not bad,
+               f"`{norm(bad[0], 60)}` changes a ref without comparing it with the value the pusher was shown: a concurrent update is overwritten "
+               f"(or deleted) and both pushers are told ok" if bad else "", bad[0].lineno if bad else f.node.lineno)
+
+
 def run(prog: Program, rep, tier="quick"):
+    rep.rule("R06.8", "atomic on every transport: refused when not advertised; validation covers every command; refs change only through CAS")
     rep.rule("R06.6", "files backend: True only when the effect happened - no effect failure is swallowed on a path to `return True` "
                       "(FileNotFoundError excepted)")
     rep.rule("R06.1", "RESULT-USED: the value of each conditional set_if_equals/remove_if_equals in a push-serving "
@@ -418,6 +490,7 @@ def run(prog: Program, rep, tier="quick"):
     rep.floor("R06.1", 6)
     rep.floor("R06.3", 2)
     r06_6(prog, rep)
+    r06_8(prog, rep)
     rep.floor("R06.4", 3)
 
 
